@@ -384,6 +384,17 @@ def r02m(F):
 		out.append(r)
 	return out
 
+def r02n(F):
+	"""a preimage that arrives after the upstream commitment confirmed claims EVERY HTLC output with that payment hash (a forwarder may have
+	relayed several HTLCs with one hash): same structural rule as 07.k, re-labelled - with one claim only the node pays out downstream more
+	than it reclaims upstream"""
+	import C07
+	out = []
+	for r in C07.r07k(F):
+		r.rule = '02.n'
+		out.append(r)
+	return out
+
 RULES = [
 	('02.a', 'a preimage from update_fulfill_htlc always reaches claim_funds_internal (message, chain and startup paths exist)', r02a),
 	('02.b', 'an RAA blocker is registered for every previous hop before the claim is handed upstream', r02b),
@@ -396,6 +407,7 @@ RULES = [
 	('02.l', 'a confirmed holder commitment is compared with its own HTLC data (previous vs current) before failing back the HTLCs it lacks', r02l),
 	('02.j', 'forwards without an outgoing channel (intercepts / phantom): outgoing amount <= incoming amount and minimum CLTV delta', r02j),
 	('02.m', 'every holder-commitment monitor update variant carries the preimages of the outbound HTLCs it removes (restart replay of forwarded claims)', r02m),
+	('02.n', 'a late preimage claims every matching HTLC output of the confirmed counterparty commitment (07.k under C02)', r02n),
 	('02.p', 'same-name field transfer: structs carrying this property\'s quantities are filled from the same-named field or a reviewed alias (rules/provenance.py)', lambda F: provenance.for_property(F, 'C02', '02.p')),
 	('02.q', 'no call hands a value named like one parameter of the callee to a different parameter (swapped type-compatible arguments; rules/provenance.py)', lambda F: provenance.swaps_for_property(F, 'C02', '02.q')),
 	('02.v', 'field-versus-field comparisons (a received value against a limit, an id against an id) are the reviewed ones: same fields, same operator (rules/provenance.py)', lambda F: provenance.cmps_for_property(F, 'C02', '02.v')),
